@@ -20,6 +20,8 @@ pub enum Fault {
     PutFailsOnceNotRetriable { n: u64 },
     PutFailsAlways { n: u64 },
     GetFailsOnce { n: u64 },
+    /// one GET is answered 403 (an error the SDK does not retry by itself)
+    GetFailsOnceNotRetriable { n: u64 },
     /// every PUT of ONE object fails, for good (partition `part` of every database with s3_patition; the keys object (0) or
     /// the values object (else) with s3), all other objects are stored normally
     PutOfOneObjectFailsAlways { part: u8 },
@@ -29,6 +31,10 @@ pub enum Fault {
 pub struct Case {
     pub base: c06::Case,
     pub fault: Fault,
+    /// the store answers ListObjectsV2 with at most this many keys per request (0 = 1000, S3's own limit): more objects
+    /// than one page holds is what a store with more than 100 databases x 10 partitions looks like
+    #[serde(default)]
+    pub list_page: usize,
 }
 
 static STUB: OnceLock<Stub> = OnceLock::new();
@@ -56,9 +62,10 @@ pub fn case_strategy() -> impl Strategy<Value = Case> {
         1 => (1..6u64).prop_map(|n| Fault::PutFailsOnceNotRetriable { n }),
         1 => (1..6u64).prop_map(|n| Fault::PutFailsAlways { n }),
         1 => (1..8u64).prop_map(|n| Fault::GetFailsOnce { n }),
+        1 => (1..8u64).prop_map(|n| Fault::GetFailsOnceNotRetriable { n }),
         2 => (0..10u8).prop_map(|part| Fault::PutOfOneObjectFailsAlways { part }),
     ];
-    (c06::case_strategy(16), fault).prop_map(|(base, fault)| Case { base, fault })
+    (c06::case_strategy(16), fault, prop_oneof![2 => Just(0usize), 1 => 1..4usize]).prop_map(|(base, fault, list_page)| Case { base, fault, list_page })
 }
 
 pub fn run_case(ctx: &Ctx, case: &Case) -> Outcome {
@@ -66,17 +73,19 @@ pub fn run_case(ctx: &Ctx, case: &Case) -> Outcome {
     stub.reset();
     *stub.faults.lock().unwrap() = match case.fault {
         Fault::None => Faults::default(),
-        Fault::PutFailsOnce { n } => Faults { put_fail: Some((n, 1, 500)), get_fail: None, put_fail_suffix: None },
-        Fault::PutFailsTimes { n, times } => Faults { put_fail: Some((n, times, 500)), get_fail: None, put_fail_suffix: None },
-        Fault::PutFailsOnceNotRetriable { n } => Faults { put_fail: Some((n, 1, 409)), get_fail: None, put_fail_suffix: None },
-        Fault::PutFailsAlways { n } => Faults { put_fail: Some((n, u64::MAX, 500)), get_fail: None, put_fail_suffix: None },
-        Fault::GetFailsOnce { n } => Faults { put_fail: None, get_fail: Some(n), put_fail_suffix: None },
+        Fault::PutFailsOnce { n } => Faults { put_fail: Some((n, 1, 500)), get_fail: None, put_fail_suffix: None, ..Faults::default() },
+        Fault::PutFailsTimes { n, times } => Faults { put_fail: Some((n, times, 500)), get_fail: None, put_fail_suffix: None, ..Faults::default() },
+        Fault::PutFailsOnceNotRetriable { n } => Faults { put_fail: Some((n, 1, 409)), get_fail: None, put_fail_suffix: None, ..Faults::default() },
+        Fault::PutFailsAlways { n } => Faults { put_fail: Some((n, u64::MAX, 500)), get_fail: None, put_fail_suffix: None, ..Faults::default() },
+        Fault::GetFailsOnce { n } => Faults { put_fail: None, get_fail: Some(n), put_fail_suffix: None, ..Faults::default() },
+        Fault::GetFailsOnceNotRetriable { n } => Faults { put_fail: None, get_fail: Some(n), get_fail_status: 403, ..Faults::default() },
         Fault::PutOfOneObjectFailsAlways { part } => {
             let nparts: u8 = std::env::var("NUN_S3_NUMBER_OF_PARTITIONS").ok().and_then(|s| s.parse().ok()).unwrap_or(1);
             let suffix = if strategy_name() == "s3" { if part == 0 { "nun.keys".to_string() } else { "nun.values".to_string() } } else { format!("/{}.nun", part % nparts.max(1)) };
-            Faults { put_fail: None, get_fail: None, put_fail_suffix: Some(suffix) }
+            Faults { put_fail: None, get_fail: None, put_fail_suffix: Some(suffix), ..Faults::default() }
         }
     };
+    stub.faults.lock().unwrap().list_page = case.list_page;
     let strat = strategy_name();
     let dir = ctx.fresh_dir();
     let mut w = c06::World::new(&dir, &case.base.strategies);
@@ -179,7 +188,7 @@ pub fn run_case(ctx: &Ctx, case: &Case) -> Outcome {
             // either way the objects of this strategy are now of mixed generations: nothing is started from them
             break 'ops;
         }
-        if let Fault::GetFailsOnce { .. } = case.fault {
+        if let Fault::GetFailsOnce { .. } | Fault::GetFailsOnceNotRetriable { .. } = case.fault {
             if get_failed_now && panicked {
                 reported = true;
                 break 'ops;
@@ -189,7 +198,7 @@ pub fn run_case(ctx: &Ctx, case: &Case) -> Outcome {
             let fault_cls = match case.fault {
                 Fault::None => "no-fault",
                 Fault::PutFailsOnce { .. } | Fault::PutFailsTimes { .. } | Fault::PutFailsOnceNotRetriable { .. } if stub.failed_puts.load(Ordering::SeqCst) > 0 => "after-put-failed-once",
-                Fault::GetFailsOnce { .. } if stub.failed_gets.load(Ordering::SeqCst) > 0 => "after-get-failed-once",
+                Fault::GetFailsOnce { .. } | Fault::GetFailsOnceNotRetriable { .. } if stub.failed_gets.load(Ordering::SeqCst) > 0 => "after-get-failed-once",
                 _ => "no-fault",
             };
             // (key-history marks are disk-format notions; the fault class matters for lost/changed data only)
@@ -223,6 +232,7 @@ pub fn run_case(ctx: &Ctx, case: &Case) -> Outcome {
         Fault::PutFailsOnceNotRetriable { .. } => "put-fails-once-with-409",
         Fault::PutFailsAlways { .. } => "put-fails-always",
         Fault::GetFailsOnce { .. } => "get-fails-once",
+        Fault::GetFailsOnceNotRetriable { .. } => "get-fails-once-with-403",
         Fault::PutOfOneObjectFailsAlways { .. } => "one-object-unwritable",
     });
     if reported {
